@@ -789,6 +789,7 @@ func (c *FC) requireFailArm(rule, what string, guard []Atom, allowPanic bool) bo
 
 // exact: every reject edge of fn must match one of the allowed reject atoms.
 func (c *FC) exact(rule string, allowed []Atom) {
+	c.errSources(rule)
 	n := 0
 	for _, re := range c.p.rejectEdges(c.fn, c.ifs) {
 		n++
